@@ -9,7 +9,8 @@ import random
 ID = "C13"
 LEVEL = "exploration"
 BUDGET = {"quick": 55, "thorough": 900}
-FLOOR = {"quick": 300, "thorough": 4000}
+QUICK_CASES = 3000  # generator items in the quick tier (fixed amount of work; BUDGET is then only a safety cap)
+FLOOR = {"quick": 800, "thorough": 4000}
 TIMEOUT = 90
 REQUIRED_OBS = ["schedules", "unique_calls", "takeovers", "kill_me_suicides", "snapshots_checked", "tasks_finished", "tasks_killed", "decorator_form_runs"]
 RULE = (
